@@ -224,6 +224,14 @@ def run(prop, tier, replay=None, nproc=None, do_build=True):
         if rw is not None:
             rw.close()
 
+    if os.environ.get("VX_SIGDUMP"):
+        # diagnostic: the complete signature list (the evidence keeps the first 200)
+        with open(os.environ["VX_SIGDUMP"], "w") as f:
+            json.dump([{"sig": k, "cases": len(v), "known": (match_known(known, k) or {}).get("id"),
+                        "case": jsonable(v[0].get("case")), "expected": jsonable(v[0].get("expected")),
+                        "observed": jsonable(v[0].get("observed"))}
+                       for k, v in sorted(by_sig.items())], f, indent=1, default=repr)
+
     wall = time.time() - t_start
     level = getattr(mod, "LEVEL", "exploration")
     cov = {
